@@ -273,6 +273,17 @@ func (e *Engine) intrinsic(st *State, fr *Frame, name string, fn *ssa.Function, 
 		return &intrRes{args[0].(*SliceV).Region}, true
 	case "gvcOff":
 		return &intrRes{args[0].(*SliceV).Off}, true
+	case "gvcUnchangedOutside":
+		b := args[0].(*SliceV)
+		pre := st.Pre
+		if pre == nil {
+			pre = st
+		}
+		now := c.Select(e.memArr(st, "u8", smt.BV8), b.Region)
+		was := c.Select(e.memArr(pre, "u8", smt.BV8), b.Region)
+		a := c.Bound("addr", smt.BV64)
+		in := c.And(c.Sle(b.Off, a), c.Slt(a, c.Add(b.Off, b.Len)))
+		return &intrRes{c.Forall([]*smt.Term{a}, c.Implies(c.Not(in), c.Eq(c.Select(now, a), c.Select(was, a))))}, true
 	case "gvcSuffixOf":
 		a, b := args[0].(*SliceV), args[1].(*SliceV)
 		d := c.Sub(b.Len, a.Len)
